@@ -25,7 +25,9 @@ ATOMS = ["a", " a", "a ", " a ", "\na", "a\nb", "k=v", " k = v ", "k=\nv", "2=v"
          # a positional value with a line made of blanks only; names with a quote / an ampersand / a run of blanks
          " \na", "a\n \nb", "1001=big", "a  b=c", "a'b=c", "a&b=d",
          # square brackets that are not a link
-         "he [sic] said", "w=[1]"]
+         "he [sic] said", "w=[1]",
+         # a positional value that starts with blanks and an exclamation mark (the header-cell marker of tables)
+         " !b"]
 SMALL = ["a", " b ", "k=v", "2=w", "\nc"]
 ECHO = r"""
 local e = {}
@@ -118,7 +120,10 @@ def check(ctx, lst):
         # known finding: the tokenizer drops lines that consist of blanks only, in argument values too
         import re as _re
         blank_line = any(_re.search(r"(^|\n)[ \t]+(\n|$)", a) for a in lst if "=" not in a)
-        out.append(("parser_view_blank_only_line" if blank_line else "parser_view_equals_rule", js(v1), js(r)))
+        # known finding: blanks before a '!' at the start of a value (or of one of its lines) are consumed with the '!' token
+        bang = any(_re.search(r"(^|\n)[ \t]+!", a) for a in lst if "=" not in a)
+        out.append(("parser_view_blank_only_line" if blank_line else "parser_view_blanks_before_exclamation_mark" if bang
+                    else "parser_view_equals_rule", js(v1), js(r)))
     # known finding: the three places use different heuristics for which characters may occur in a name
     odd = "_name_with_quote_or_ampersand" if any(("=" in a and any(ch in a.split("=", 1)[0] for ch in "'&[]")) for a in lst) else ""
     if v2 != r:
